@@ -486,7 +486,93 @@ func Run(r *fw.Run) {
 			r.Violation(c.key(), msg, c)
 		}
 	})
+	targetSpellings(r, "")
 	r.Sample(caseT{ModPath: goodMod, Version: goodVers, Entries: []entryT{{Name: strconv.QuoteToASCII(prefixes[0] + "go.mod"), Size: "honest"}, {Name: strconv.QuoteToASCII(prefixes[0] + "../../x"), Size: "honest"}}})
+}
+
+// targetSpellings extracts one valid archive into an empty directory spelled in every way (absolute,
+// relative to the working directory, the working directory itself, through a parent, with trailing
+// separators); sequential, because the working directory is process wide. only (replay) = one spelling.
+func targetSpellings(r *fw.Run, only string) {
+	scratch := r.Scratch()
+	base := filepath.Join(scratch, "spell")
+	os.RemoveAll(base)
+	defer os.RemoveAll(base)
+	os.MkdirAll(base, 0o755)
+	pre := goodMod + "@" + goodVers + "/"
+	es := []ent{{name: pre + "go.mod", content: "module example.com/m\n", size: "honest"}, {name: pre + "a/b.go", content: "package a\n", size: "honest"}, {name: pre + ".hidden", content: "h", size: "honest"}}
+	data, err := build(es)
+	if err != nil {
+		r.Note("target spellings skipped: %v", err)
+		return
+	}
+	zp := filepath.Join(base, "m.zip")
+	os.WriteFile(zp, data, 0o644)
+	old, err := os.Getwd()
+	if err != nil {
+		return
+	}
+	defer os.Chdir(old)
+	type sp struct{ wd, dir string } // wd relative to base ("" = base); dir as given to Unzip
+	sps := []sp{{"", filepath.Join(base, "out")}, {"", filepath.Join(base, "out") + "/"}, {"", base + "/./out"}, {"", base + "/x/../out"}, {"", "out"}, {"", "./out"}, {"", "out/"}, {"", "out/."}, {"", "x/../out"},
+		{"out", "."}, {"out", "./"}, {"out", "./."}, {"out", "../out"}, {"out", "sub/.."}, {"out/sub", ".."}, {"out/sub", "../"}, {"out/sub", "../."}, {"x", "../out"}}
+	if only == "" {
+		r.Bounds["target_directory_spellings"] = len(sps)
+	}
+	l := fw.NewLocal()
+	defer r.Merge(l)
+	for _, s := range sps {
+		key := s.wd + "|" + strings.TrimPrefix(s.dir, base)
+		if only != "" && only != key {
+			continue
+		}
+		out := filepath.Join(base, "out")
+		os.RemoveAll(out)
+		os.MkdirAll(filepath.Join(base, "x"), 0o755)
+		os.MkdirAll(out, 0o755)
+		needSub := strings.Contains(s.wd, "sub") || strings.Contains(s.dir, "sub")
+		if needSub {
+			// the target must be empty for Unzip: these spellings go through a sibling instead
+			os.MkdirAll(filepath.Join(base, "subhost", "sub"), 0o755)
+		}
+		wd := filepath.Join(base, s.wd)
+		dir := s.dir
+		if needSub {
+			// run from (or through) <base>/subhost/sub, naming <base>/subhost as the target
+			out = filepath.Join(base, "subhost")
+			wd = filepath.Join(base, strings.Replace(s.wd, "out", "subhost", 1))
+			os.RemoveAll(filepath.Join(out, "sub"))
+			if strings.HasPrefix(s.wd, "out/sub") {
+				os.MkdirAll(filepath.Join(base, "elsewhere"), 0o755)
+				wd = filepath.Join(base, "elsewhere")
+				dir = "../subhost"
+			} else {
+				dir = "../subhost/."
+			}
+		}
+		if err := os.Chdir(wd); err != nil {
+			continue
+		}
+		l.States++
+		l.Execs++
+		l.Transitions++
+		uzErr := modzip.Unzip(dir, module.Version{Path: goodMod, Version: goodVers}, zp)
+		os.Chdir(old)
+		c := caseT{ModPath: goodMod, Version: goodVers, Entries: []entryT{{Name: strconv.QuoteToASCII("target-spelling:" + key), Size: "honest"}}}
+		if uzErr != nil {
+			r.Violation("target:"+key, fmt.Sprintf("Unzip of a valid archive into an empty directory spelled %q (working directory <scratch>/%s) fails: %v", dir, strings.TrimPrefix(wd, base+"/"), uzErr), c)
+			continue
+		}
+		for _, e := range es {
+			b, err := os.ReadFile(filepath.Join(out, strings.TrimPrefix(e.name, pre)))
+			if err != nil || string(b) != e.content {
+				r.Violation("target:"+key, fmt.Sprintf("Unzip into %q (working directory <scratch>/%s): extracted file %s missing or different (%v)", dir, strings.TrimPrefix(wd, base+"/"), strings.TrimPrefix(e.name, pre), err), c)
+			}
+		}
+		l.Nontrivial++
+		l.Outcomes["target-spelling:ok"]++
+		os.RemoveAll(filepath.Join(base, "subhost"))
+	}
 }
 
 func Replay(r *fw.Run, raw json.RawMessage) {
@@ -494,6 +580,13 @@ func Replay(r *fw.Run, raw json.RawMessage) {
 	if err := json.Unmarshal(raw, &c); err != nil {
 		r.Violation("replay", err.Error(), nil)
 		return
+	}
+	if len(c.Entries) == 1 {
+		if n, _ := strconv.Unquote(c.Entries[0].Name); strings.HasPrefix(n, "target-spelling:") {
+			r.Sample(c)
+			targetSpellings(r, strings.TrimPrefix(n, "target-spelling:"))
+			return
+		}
 	}
 	var es []ent
 	for _, e := range c.Entries {
